@@ -4,7 +4,15 @@ and of the consumers of the haplotype matrix:
   breed/prot/sel/prob/OptimalHaploidValueSelectionProblem.py  `_calc_haplomat`, `_calc_ohvmat`, `latentfn`
   breed/prot/sel/prob/OptimalPopulationValueSelectionProblem.py `_calc_haplomat`, `latentfn`
   breed/prot/sel/prob/GenotypeBuilderSelectionProblem.py      `_calc_haplomat`, `latentfn`
-Core Lean only; executed at `Rat` by the driver, reasoned about over an ordered field in Lemmas/Props.
+Core Lean only; executed at `Rat` (values) and at `Float` (layout, bit for bit) by the driver, reasoned about
+over an ordered field in Lemmas/Props.
+
+The model mirrors the code AFTER the repair of defect D10 (`fix:` commit, patches/C18_D10.diff):
+* `nhaploblk_chrom` skips, in its greedy loop, every chromosome that already holds one block per marker while
+  another chromosome still has room (`diff[full] = inf`);
+* `haplobin` re-labels a chromosome with equal-COUNT blocks `k0 + (i * nhap) // nmkr` whenever its equal-width bins
+  left a label unused although the chromosome has at least as many markers as bins.
+The code before the repair is kept in section 7 under `…Prerepair` names, for the `…_prerepair_counterexample`s only.
 
 Conventions
 * marker positions come grouped by chromosome (`chroms : List (List α)`); `chromSlices` cuts
@@ -36,7 +44,7 @@ section scalar
 variable {α : Type} [Add α] [Sub α] [Mul α] [Div α] [Neg α] [OfNat α 0] [NatCast α]
   [LT α] [LE α] [DecidableLT α] [DecidableLE α] [DecidableEq α]
 
-/-! ### 1. `nhaploblk_chrom`: greedy apportionment of blocks to chromosomes -/
+/-! ### 1. `nhaploblk_chrom`: greedy apportionment of blocks to chromosomes, never more blocks than markers -/
 
 /-- `numpy.argmin`: index of the first minimal element -/
 def argminGo : α → Nat → Nat → List α → Nat
@@ -47,12 +55,6 @@ def argmin : List α → Nat
   | [] => 0
   | x :: xs => argminGo x 0 1 xs
 
-/-- the `for i in range(nhaploblk - nchr)` loop:
-    `diff = nhaploblk_chrom - nhaploblk_ideal; ix = diff.argmin(); nhaploblk_chrom[ix] += 1` -/
-def greedy (ideal : List α) : Nat → List Nat → List Nat
-  | 0, nb => nb
-  | k + 1, nb => greedy ideal k (incrAt (argmin (List.zipWith (fun (a : Nat) b => (a : α) - b) nb ideal)) nb)
-
 /-- `genlen = genpos[chrgrp_spix-1] - genpos[chrgrp_stix]` on chromosome-grouped positions -/
 def genlen (chroms : List (List α)) : List α :=
   chroms.map (fun c => c.getLastD 0 - c.headD 0)
@@ -62,27 +64,91 @@ def ideal (nhaploblk : Nat) (gl : List α) : List α :=
   let s := Np.sum gl
   gl.map (fun g => ((nhaploblk : α) / s) * g)
 
-/-- the loop with an all-NaN `diff` (total genetic length 0 ⇒ `ideal = inf * 0 = NaN`):
-    `argmin` of an all-NaN vector is 0 in every iteration -/
-def greedyNaN : Nat → List Nat → List Nat
-  | 0, nb => nb
-  | k + 1, nb => greedyNaN k (incrAt 0 nb)
+/-- `argmin` of `diff` with the entries of full chromosomes replaced by `inf`: value and index of the
+    first minimal entry among the chromosomes that are not full; `none` when all are full -/
+def argminMasked : List α → List Bool → Option (α × Nat)
+  | x :: xs, f :: fs =>
+    match argminMasked xs fs with
+    | none => if f then none else some (x, 0)
+    | some (b, j) => if f then some (b, j + 1) else if b < x then some (b, j + 1) else some (x, 0)
+  | _, _ => none
 
-/-- `nhaploblk_chrom(nhaploblk, genpos, chrgrp_stix, chrgrp_spix)`; `gl` is the vector of genetic
-    lengths.  `ValueError` when fewer blocks than chromosomes are requested.  The test "total length is
-    zero" is written with `≤` twice so that the same definition runs at `Float` (binary64, bit for bit
-    what numpy computes) as well as at `Rat`. -/
-def nhaploblkChromOfLen (nhaploblk : Nat) (gl : List α) : Except String (List Nat) :=
+/-- `full = nhaploblk_chrom >= chrgrp_len` -/
+def fullMask (nb lens : List Nat) : List Bool := List.zipWith (fun b l => decide (l ≤ b)) nb lens
+
+/-- index chosen by one iteration of the loop:
+    `full = nhaploblk_chrom >= chrgrp_len; if not full.all(): diff = numpy.where(full, numpy.inf, diff); ix = diff.argmin()` -/
+def pickCap (diff : List α) (nb lens : List Nat) : Nat :=
+  match argminMasked diff (fullMask nb lens) with
+  | some (_, ix) => ix
+  | none => argmin diff
+
+/-- `numpy.where(full, numpy.inf, diff)`, literally; `none` stands for `+inf` -/
+def whereInf (full : List Bool) (diff : List α) : List (Option α) :=
+  List.zipWith (fun f d => if f then none else some d) full diff
+
+/-- `a < b` on values that may be `+inf` -/
+def ltInf : Option α → Option α → Bool
+  | some a, some b => decide (a < b)
+  | some _, none => true
+  | none, _ => false
+
+/-- `numpy.argmin` on values that may be `+inf`: index of the first minimal element -/
+def argminInfGo : Option α → Nat → Nat → List (Option α) → Nat
+  | _, bi, _, [] => bi
+  | b, bi, i, x :: xs => if ltInf x b then argminInfGo x i (i + 1) xs else argminInfGo b bi (i + 1) xs
+
+def argminInf : List (Option α) → Nat
+  | [] => 0
+  | x :: xs => argminInfGo x 0 1 xs
+
+/-- one iteration of the loop transcribed literally: `if not full.all(): diff = numpy.where(full, numpy.inf, diff)`,
+    then `diff.argmin()` (closed form: `pickCap`, proved equal in Lemmas/HaploRepair: `pickCap_eq_lit`) -/
+def pickCapLit (diff : List α) (nb lens : List Nat) : Nat :=
+  let full := fullMask nb lens
+  if full.all id then argmin diff else argminInf (whereInf full diff)
+
+/-- the `for i in range(nhaploblk - nchr)` loop:
+    `diff = nhaploblk_chrom - nhaploblk_ideal; ix = (masked diff).argmin(); nhaploblk_chrom[ix] += 1` -/
+def greedyCap (ideal : List α) (lens : List Nat) : Nat → List Nat → List Nat
+  | 0, nb => nb
+  | k + 1, nb =>
+    greedyCap ideal lens k (incrAt (pickCap (List.zipWith (fun (a : Nat) b => (a : α) - b) nb ideal) nb lens) nb)
+
+/-- the same loop with the literally transcribed iteration (`greedyCap_eq_lit`: equal for every input) -/
+def greedyCapLit (ideal : List α) (lens : List Nat) : Nat → List Nat → List Nat
+  | 0, nb => nb
+  | k + 1, nb =>
+    greedyCapLit ideal lens k (incrAt (pickCapLit (List.zipWith (fun (a : Nat) b => (a : α) - b) nb ideal) nb lens) nb)
+
+/-- first `false` of a mask (its length if there is none) -/
+def firstFalse : List Bool → Nat
+  | [] => 0
+  | f :: fs => if f then firstFalse fs + 1 else 0
+
+/-- all-NaN `diff` (total genetic length 0): full entries become `inf`, `argmin` returns the first NaN,
+    i.e. the first chromosome with room; 0 when all are full (nothing is masked then) -/
+def firstRoom (nb lens : List Nat) : Nat :=
+  if (fullMask nb lens).all id then 0 else firstFalse (fullMask nb lens)
+
+def greedyCapNaN (lens : List Nat) : Nat → List Nat → List Nat
+  | 0, nb => nb
+  | k + 1, nb => greedyCapNaN lens k (incrAt (firstRoom nb lens) nb)
+
+/-- `nhaploblk_chrom(nhaploblk, genpos, chrgrp_stix, chrgrp_spix)`.  `ValueError` when fewer blocks than chromosomes
+    are requested.  The test "total length is zero" is written with `≤` twice so that the same definition runs at
+    `Float` (binary64, bit for bit what numpy computes) as well as at `Rat`. -/
+def nhaploblkChrom (nhaploblk : Nat) (chroms : List (List α)) : Except String (List Nat) :=
+  let gl := genlen chroms
+  let lens := chroms.map List.length
   let nchr := gl.length
   if nhaploblk < nchr then .error "value" else
   let ones := List.replicate nchr 1
-  if Np.sum gl ≤ 0 ∧ 0 ≤ Np.sum gl then .ok (greedyNaN (nhaploblk - nchr) ones)
-  else .ok (greedy (ideal nhaploblk gl) (nhaploblk - nchr) ones)
+  if Np.sum gl ≤ 0 ∧ 0 ≤ Np.sum gl then .ok (greedyCapNaN lens (nhaploblk - nchr) ones)
+  else .ok (greedyCap (ideal nhaploblk gl) lens (nhaploblk - nchr) ones)
 
-def nhaploblkChrom (nhaploblk : Nat) (chroms : List (List α)) : Except String (List Nat) :=
-  nhaploblkChromOfLen nhaploblk (genlen chroms)
-
-/-! ### 2. `haplobin`: equal-width bins; later bins overwrite markers sitting on a boundary -/
+/-! ### 2. `haplobin`: equal-width bins (later bins overwrite markers sitting on a boundary), equal-count
+fallback for a chromosome whose equal-width bins leave a label unused -/
 
 /-- `numpy.linspace(a, b, n+1)`: `arange(0, n+1) * ((b-a)/n) + a`, last element set to `b` -/
 def linspace (a b : α) (n : Nat) : List α :=
@@ -116,10 +182,26 @@ def labelGo : List α → Nat → α → Option Nat → Option Nat
 def binChrom (hb : List α) (k0 : Nat) (pos : List α) : List (Option Nat) :=
   binLoop hb k0 pos (pos.map (fun _ => none))
 
+/-- `len(numpy.unique(x))` -/
+def ndistinct {β : Type} [DecidableEq β] : List β → Nat
+  | [] => 0
+  | a :: l => if a ∈ l then ndistinct l else ndistinct l + 1
+
+/-- equal-count fallback labels `(k - nhap) + (arange(m) * nhap) // m` -/
+def equalCount (k0 nhap m : Nat) : List Nat := (List.range m).map (fun i => k0 + (i * nhap) / m)
+
+/-- one chromosome of `haplobin`: the painting loop, then
+    `nmkr = spix - stix; if (nhap <= nmkr) and (len(numpy.unique(haplobin[stix:spix])) < nhap):`
+    `    haplobin[stix:spix] = (k - nhap) + (numpy.arange(nmkr) * nhap) // nmkr` -/
+def chromLabels (hb : List α) (k0 : Nat) (pos : List α) : List (Option Nat) :=
+  let lab := binChrom hb k0 pos
+  let nhap := hb.length - 1
+  if nhap ≤ pos.length ∧ ndistinct lab < nhap then (equalCount k0 nhap pos.length).map some else lab
+
 /-- the outer `for i in range(nchr)` loop with explicit boundary vectors (one per chromosome);
     the bin counter advances by the number of bins of the chromosome -/
 def haplobinHB : List (List α) → List (List α) → Nat → List (Option Nat)
-  | hb :: hbs, pos :: cs, k => binChrom hb k pos ++ haplobinHB hbs cs (k + (hb.length - 1))
+  | hb :: hbs, pos :: cs, k => chromLabels hb k pos ++ haplobinHB hbs cs (k + (hb.length - 1))
   | _, _, _ => []
 
 /-- boundaries as the code computes them: `linspace(genpos[stix], genpos[spix-1], nhap+1)` -/
@@ -192,7 +274,7 @@ def hmatFibre (nhaploblk : Nat) (bnds : List (Nat × Nat)) (g u : List α) : Lis
 def blockTable (geno : List (List (List α))) (u : List α) (bnds : List (Nat × Nat)) : List (List (List α)) :=
   geno.map (fun gm => gm.map (fun g => bnds.map (blockVal g u)))
 
-/-- labels of `haplobin` with every cell initialised, or `none` -/
+/-- labels of `haplobinPrerepair` with every cell initialised, or `none` -/
 def allSome {γ} : List (Option γ) → Option (List γ)
   | [] => some []
   | none :: _ => none
@@ -229,16 +311,16 @@ def blockBounds (hbin : List Nat) : Except String (List (Nat × Nat)) :=
   | .error e => .error e
   | .ok (st, sp, _) => .ok (List.zip st sp)
 
-/-- everything of `haplomat` before the fill loop: apportionment, marker-count guard, bins, bounds.
+/-- everything of `haplomat` / `_calc_haplomat` before the fill loop: apportionment, marker-count guard, bins, bounds.
     `error "value"`: fewer blocks than chromosomes / more blocks than markers on a chromosome;
     `error "uninit"`: a marker label was never written (cannot happen, `C18.bin_total`);
     `error "index"`: more runs than block columns (cannot happen, `C18.runs_le_requested`). -/
-def blocksOf (nhaploblk : Nat) (chroms : List (List α)) (guard : Bool) :
+def blocksOf (nhaploblk : Nat) (chroms : List (List α)) :
     Except String (List Nat × List Nat × List (Nat × Nat)) :=
   match nhaploblkChrom nhaploblk chroms with
   | .error e => .error e
   | .ok nblk =>
-    if guard && (List.zipWith (fun n (c : List α) => decide (c.length < n)) nblk chroms).any id
+    if (List.zipWith (fun n (c : List α) => decide (c.length < n)) nblk chroms).any id
     then .error "value" else
     match allSome (haplobin nblk chroms) with
     | none => .error "uninit"
@@ -366,99 +448,75 @@ def mosaic (bnds : List (Nat × Nat)) (src : List (List α)) : List α :=
 
 end value
 
-/-! ### 7. the PROPOSED repair of defect D10 (patch_D10.diff), modelled the same way
+/-! ### 7. the code BEFORE the repair of defect D10 (kept for the `…_prerepair_counterexample` theorems and for
+checking, on a tree without the fix, that the regression is caught)
 
-`nhaploblk_chrom`: a chromosome that already holds one block per marker is skipped by the greedy loop
-(`diff[full] = inf` while some chromosome has room).  `haplobin`: when the equal-width bins of a chromosome
-leave a label unused although the chromosome has at least as many markers as bins, the chromosome falls
-back to equal-count blocks `k0 + (i * nhap) // m`. -/
+`nhaploblk_chrom` handed blocks to the chromosome with the lowest `actual - ideal` whatever its marker count;
+`haplobin` kept the equal-width labels even when a bin `[hb[j], hb[j+1])` held no marker, so fewer blocks than
+requested were produced and the remaining block columns of the `numpy.empty` haplotype matrix were never written. -/
 
-section fixed
+section prerepair
 variable {α : Type} [Add α] [Sub α] [Mul α] [Div α] [Neg α] [OfNat α 0] [NatCast α]
   [LT α] [LE α] [DecidableLT α] [DecidableLE α] [DecidableEq α]
 
-/-- `argmin` of `diff` with the entries of full chromosomes replaced by `inf`: value and index of the
-    first minimal entry among the chromosomes that are not full; `none` when all are full -/
-def argminMasked : List α → List Bool → Option (α × Nat)
-  | x :: xs, f :: fs =>
-    match argminMasked xs fs with
-    | none => if f then none else some (x, 0)
-    | some (b, j) => if f then some (b, j + 1) else if b < x then some (b, j + 1) else some (x, 0)
-  | _, _ => none
-
-/-- `full = nhaploblk_chrom >= chrgrp_len` -/
-def fullMask (nb lens : List Nat) : List Bool := List.zipWith (fun b l => decide (l ≤ b)) nb lens
-
-/-- index chosen by one iteration of the patched loop -/
-def pickCap (diff : List α) (nb lens : List Nat) : Nat :=
-  match argminMasked diff (fullMask nb lens) with
-  | some (_, ix) => ix
-  | none => argmin diff
-
-def greedyCap (ideal : List α) (lens : List Nat) : Nat → List Nat → List Nat
+/-- the `for i in range(nhaploblk - nchr)` loop:
+    `diff = nhaploblk_chrom - nhaploblk_ideal; ix = diff.argmin(); nhaploblk_chrom[ix] += 1` -/
+def greedyPrerepair (ideal : List α) : Nat → List Nat → List Nat
   | 0, nb => nb
-  | k + 1, nb =>
-    greedyCap ideal lens k (incrAt (pickCap (List.zipWith (fun (a : Nat) b => (a : α) - b) nb ideal) nb lens) nb)
+  | k + 1, nb => greedyPrerepair ideal k (incrAt (argmin (List.zipWith (fun (a : Nat) b => (a : α) - b) nb ideal)) nb)
 
-/-- first `false` of a mask (its length if there is none) -/
-def firstFalse : List Bool → Nat
-  | [] => 0
-  | f :: fs => if f then firstFalse fs + 1 else 0
-
-/-- all-NaN `diff` (total genetic length 0): full entries become `inf`, `argmin` returns the first NaN,
-    i.e. the first chromosome with room; 0 when all are full (nothing is masked then) -/
-def firstRoom (nb lens : List Nat) : Nat :=
-  if (fullMask nb lens).all id then 0 else firstFalse (fullMask nb lens)
-
-def greedyCapNaN (lens : List Nat) : Nat → List Nat → List Nat
+/-- the loop with an all-NaN `diff` (total genetic length 0 ⇒ `ideal = inf * 0 = NaN`):
+    `argmin` of an all-NaN vector is 0 in every iteration -/
+def greedyNaNPrerepair : Nat → List Nat → List Nat
   | 0, nb => nb
-  | k + 1, nb => greedyCapNaN lens k (incrAt (firstRoom nb lens) nb)
+  | k + 1, nb => greedyNaNPrerepair k (incrAt 0 nb)
 
-def nhaploblkChromFixed (nhaploblk : Nat) (chroms : List (List α)) : Except String (List Nat) :=
-  let gl := genlen chroms
-  let lens := chroms.map List.length
+/-- `nhaploblk_chrom(nhaploblk, genpos, chrgrp_stix, chrgrp_spix)`; `gl` is the vector of genetic
+    lengths.  `ValueError` when fewer blocks than chromosomes are requested.  The test "total length is
+    zero" is written with `≤` twice so that the same definition runs at `Float` (binary64, bit for bit
+    what numpy computes) as well as at `Rat`. -/
+def nhaploblkChromOfLenPrerepair (nhaploblk : Nat) (gl : List α) : Except String (List Nat) :=
   let nchr := gl.length
   if nhaploblk < nchr then .error "value" else
   let ones := List.replicate nchr 1
-  if Np.sum gl ≤ 0 ∧ 0 ≤ Np.sum gl then .ok (greedyCapNaN lens (nhaploblk - nchr) ones)
-  else .ok (greedyCap (ideal nhaploblk gl) lens (nhaploblk - nchr) ones)
+  if Np.sum gl ≤ 0 ∧ 0 ≤ Np.sum gl then .ok (greedyNaNPrerepair (nhaploblk - nchr) ones)
+  else .ok (greedyPrerepair (ideal nhaploblk gl) (nhaploblk - nchr) ones)
 
-/-- `len(numpy.unique(x))` -/
-def ndistinct {β : Type} [DecidableEq β] : List β → Nat
-  | [] => 0
-  | a :: l => if a ∈ l then ndistinct l else ndistinct l + 1
+def nhaploblkChromPrerepair (nhaploblk : Nat) (chroms : List (List α)) : Except String (List Nat) :=
+  nhaploblkChromOfLenPrerepair nhaploblk (genlen chroms)
 
-/-- equal-count fallback labels `(k - nhap) + (arange(m) * nhap) // m` -/
-def equalCount (k0 nhap m : Nat) : List Nat := (List.range m).map (fun i => k0 + (i * nhap) / m)
-
-/-- one chromosome of the patched `haplobin` -/
-def binChromFixed (hb : List α) (k0 : Nat) (pos : List α) : List (Option Nat) :=
-  let lab := binChrom hb k0 pos
-  let nhap := hb.length - 1
-  if nhap ≤ pos.length ∧ ndistinct lab < nhap then (equalCount k0 nhap pos.length).map some else lab
-
-def haplobinFixedHB : List (List α) → List (List α) → Nat → List (Option Nat)
-  | hb :: hbs, pos :: cs, k => binChromFixed hb k pos ++ haplobinFixedHB hbs cs (k + (hb.length - 1))
+/-- the outer `for i in range(nchr)` loop with explicit boundary vectors (one per chromosome);
+    the bin counter advances by the number of bins of the chromosome -/
+def haplobinHBPrerepair : List (List α) → List (List α) → Nat → List (Option Nat)
+  | hb :: hbs, pos :: cs, k => binChrom hb k pos ++ haplobinHBPrerepair hbs cs (k + (hb.length - 1))
   | _, _, _ => []
 
-def haplobinFixed (nblk : List Nat) (chroms : List (List α)) : List (Option Nat) :=
-  haplobinFixedHB (hbounds nblk chroms) chroms 0
+/-- `haplobin(nhaploblk_chrom, genpos, chrgrp_stix, chrgrp_spix)` -/
+def haplobinPrerepair (nblk : List Nat) (chroms : List (List α)) : List (Option Nat) :=
+  haplobinHBPrerepair (hbounds nblk chroms) chroms 0
 
-/-- the pipeline with both repairs (the marker-count guard is kept) -/
-def blocksOfFixed (nhaploblk : Nat) (chroms : List (List α)) :
+
+def haplobinRPrerepair (rnd : α → α) (nblk : List Nat) (chroms : List (List α)) : List (Option Nat) :=
+  haplobinHBPrerepair (hboundsR rnd nblk chroms) chroms 0
+
+/-- everything of `haplomat` before the fill loop: apportionment, marker-count guard, bins, bounds.
+    `error "value"`: fewer blocks than chromosomes / more blocks than markers on a chromosome;
+    `error "uninit"`: a marker label was never written (cannot happen, `C18.bin_total`);
+    `error "index"`: more runs than block columns (cannot happen, `C18.runs_le_requested`). -/
+def blocksOfPrerepair (nhaploblk : Nat) (chroms : List (List α)) (guard : Bool) :
     Except String (List Nat × List Nat × List (Nat × Nat)) :=
-  match nhaploblkChromFixed nhaploblk chroms with
+  match nhaploblkChromPrerepair nhaploblk chroms with
   | .error e => .error e
   | .ok nblk =>
-    if (List.zipWith (fun n (c : List α) => decide (c.length < n)) nblk chroms).any id
+    if guard && (List.zipWith (fun n (c : List α) => decide (c.length < n)) nblk chroms).any id
     then .error "value" else
-    match allSome (haplobinFixed nblk chroms) with
+    match allSome (haplobinPrerepair nblk chroms) with
     | none => .error "uninit"
     | some hbin =>
       match blockBounds hbin with
       | .error e => .error e
       | .ok bnds => if nhaploblk < bnds.length then .error "index" else .ok (nblk, hbin, bnds)
 
-end fixed
+end prerepair
 
 end Haplo
